@@ -1,9 +1,11 @@
 package main
 
 import (
+	"fmt"
 	"go/token"
 	"golang.org/x/tools/go/ssa"
 	"regexp"
+	"sort"
 	"strings"
 )
 
@@ -99,6 +101,9 @@ func rulesC07(c *Ctx) {
 	c07FinalizedKept(c, "storage/mkvs/db/badger")
 	c07ResolvedVersion(c, "storage/mkvs/db/badger")
 	c07IterKey(c)
+	c07Repeat(c, "storage/mkvs/db/badger")
+	c07Repeat(c, "storage/mkvs/db/pathbadger")
+	c07RepeatSupport(c)
 	if fn := c.needFn(rule, "storage/mkvs/db/badger.(*badgerNodeDB).Finalize"); fn != nil {
 		flush := CallsTo(fn, "versionBatch.Flush", bWB+".Flush", "NewWriteBatchAt")
 		commit := CallsTo(fn, "tx.CommitAt", bTX+".CommitAt", "")
@@ -487,5 +492,384 @@ func c07IterKey(c *Ctx) {
 	}
 	if bad == 0 {
 		c.Check(n >= 4, rule, "Item.Key() never escapes", "", itoa(n)+" uses of an iterator item's key, all consumed on the spot (decode/compare)", "no use of badger Item.Key() found in the node databases")
+	}
+}
+
+// c07Repeat: an operation that deletes records in a batch flushed before its
+// metadata commit can be interrupted in between; when repeated it finds those
+// records gone. Every look-up it (or what it calls) makes of a record format
+// it deletes, and that fails on absence, must therefore be tolerated by the
+// operation, or the operation can never be completed (F17).
+func c07Repeat(c *Ctx, pk string) {
+	const rule = "C07.repeat"
+	const bKeyNotFound = "github.com/dgraph-io/badger/v4.ErrKeyNotFound"
+	g := c.P.CallGraph()
+	nReads := 0
+	for _, op := range []string{"Prune", "Finalize"} {
+		fn := c.needFn(rule, pk+".(*badgerNodeDB)."+op)
+		if fn == nil {
+			continue
+		}
+		fns := withClosures(fn)
+		// D: formats of the records deleted through a write batch (flushed on its own,
+		// before the transaction that carries the metadata is committed). Deletions made
+		// in the metadata transaction itself become durable together with the metadata.
+		D := map[string]bool{}
+		for _, f := range fns {
+			for _, call := range callsIn(f) {
+				nm := calleeName(call)
+				if nm != bWB+".Delete" && nm != bWB+".DeleteAt" {
+					continue
+				}
+				badgerKeyFormatsOf(allArgs(call)[1], 0, map[ssa.Value]bool{}, D)
+			}
+		}
+		c.Info(rule, fname(fn)+":batch-deleted formats", c.P.Pos(fn.Pos()), strings.Join(sortedKeys(D), ","))
+		if len(D) == 0 {
+			c.Fail(rule, fname(fn)+":batch-deleted formats", c.P.Pos(fn.Pos()), "no batch deletion with a recognisable key format found in "+op)
+			continue
+		}
+		for _, f := range fns {
+			for _, call := range callsIn(f) {
+				nm := calleeName(call)
+				var readers []*ssa.Function
+				if nm == bTX+".Get" {
+					readers = []*ssa.Function{f}
+				} else if sc := call.Common().StaticCallee(); sc != nil && inModule(fpkgPath(sc)) && !strings.HasPrefix(fname(sc), fname(fn)) {
+					readers, _ = g.Cone([]*ssa.Function{sc}, func(h *ssa.Function) bool {
+						return !strings.HasPrefix(short(fpkgPath(h)), "storage/mkvs")
+					})
+				} else if call.Common().IsInvoke() {
+					var starts []*ssa.Function
+					for _, e := range g.succ[f] {
+						if e.Site == call.(ssa.Instruction) {
+							starts = append(starts, e.To)
+						}
+					}
+					readers, _ = g.Cone(starts, func(h *ssa.Function) bool {
+						return !strings.HasPrefix(short(fpkgPath(h)), "storage/mkvs")
+					})
+				}
+				// which of the deleted formats does this call look up, and what does
+				// the look-up report when the record is absent
+				need := map[string]map[string]bool{} // sentinel -> formats
+				for _, h := range readers {
+					if short(fpkgPath(h)) != pk {
+						continue
+					}
+					for _, kr := range keyReadsIn(h) {
+						if h == f && kr.Call != call {
+							continue
+						}
+						for _, fm := range kr.Fmts {
+							if !D[fm] {
+								continue
+							}
+							sents := []string{bKeyNotFound}
+							if h != f {
+								if s := errSentinelsReturned(h); len(s) > 0 {
+									sents = s
+								}
+							}
+							for _, s := range sents {
+								if need[s] == nil {
+									need[s] = map[string]bool{}
+								}
+								need[s][fm] = true
+							}
+						}
+					}
+				}
+				if len(need) == 0 {
+					continue
+				}
+				c.Analysed[fname(f)] = true
+				ev := callErrValue(call)
+				for _, sent := range sortedKeys2(need) {
+					nReads++
+					fms := strings.Join(sortedKeys(need[sent]), ",")
+					inst := fname(fn) + ":" + strings.TrimPrefix(nm, "github.com/dgraph-io/badger/v4.") + " looks up " + shortFmts(fms) + " (absent → " + shortSentinel2(sent) + ")"
+					if why, ok := c.Tabled("c07_repeat", rule+"|"+inst); ok {
+						c.TabledOK(rule, inst, c.P.InstrPos(call), why)
+						continue
+					}
+					if ev == nil {
+						c.Fail(rule, inst, c.P.InstrPos(call), "the call's error value could not be identified")
+						continue
+					}
+					ok, why := toleratesSentinel(c, f, ev, sent)
+					c.Check(ok, rule, inst, c.P.InstrPos(call), why,
+						op+" deletes "+shortFmts(fms)+" records in a batch that is flushed before the metadata commit; when the process dies in between and "+op+" is repeated, this look-up finds the record gone and "+why+": the operation can never be completed (and, for Prune, nothing can ever be pruned again)")
+				}
+			}
+		}
+	}
+	if pk == "storage/mkvs/db/badger" {
+		c.Floor(rule, nReads, 3, "look-ups of batch-deleted record formats in Prune/Finalize")
+	}
+}
+
+func shortFmts(s string) string {
+	parts := strings.Split(s, ",")
+	for i, p := range parts {
+		parts[i] = p[strings.LastIndex(p, ".")+1:]
+	}
+	return strings.Join(parts, ",")
+}
+
+func shortSentinel2(s string) string {
+	if i := strings.LastIndex(s, "/"); i >= 0 {
+		return s[i+1:]
+	}
+	return s
+}
+
+func sortedKeys2(m map[string]map[string]bool) []string {
+	var out []string
+	for k := range m {
+		out = append(out, k)
+	}
+	sort.Strings(out)
+	return out
+}
+
+// callErrValue: the error result of a call (the value itself, or the Extract
+// of the error-typed component of a tuple).
+func callErrValue(call ssa.CallInstruction) ssa.Value {
+	v := call.Value()
+	if v == nil {
+		return nil
+	}
+	if isErrorType(v.Type()) {
+		return v
+	}
+	if v.Referrers() != nil {
+		for _, r := range *v.Referrers() {
+			if ex, ok := r.(*ssa.Extract); ok && isErrorType(ex.Type()) {
+				return ex
+			}
+		}
+	}
+	return nil
+}
+
+// carriesErr: does v hand on error e (directly, through a phi, an interface
+// conversion, a defer spill or wrapped by fmt.Errorf)?
+func carriesErr(v, e ssa.Value, d int) bool {
+	if v == nil || d > 6 {
+		return false
+	}
+	v = unspill(v)
+	if v == e {
+		return true
+	}
+	switch x := v.(type) {
+	case *ssa.UnOp:
+		// a load of a variable kept in memory: some store of e reaches it
+		al, ok := x.X.(*ssa.Alloc)
+		if !ok || x.Op != token.MUL || al.Referrers() == nil {
+			return false
+		}
+		var stores []*ssa.Store
+		for _, r := range *al.Referrers() {
+			if st, ok := r.(*ssa.Store); ok && st.Addr == al {
+				stores = append(stores, st)
+			}
+		}
+		for _, st := range stores {
+			if !carriesErr(st.Val, e, d+1) {
+				continue
+			}
+			cut := NewCut()
+			for _, o := range stores {
+				if o != st {
+					cut.AddInstr(o)
+				}
+			}
+			if Reach(x.Parent(), st, nil, isInstr(x), cut) != nil {
+				return true
+			}
+		}
+	case *ssa.Phi:
+		for _, ed := range x.Edges {
+			if carriesErr(ed, e, d+1) {
+				return true
+			}
+		}
+	case *ssa.MakeInterface:
+		return carriesErr(x.X, e, d+1)
+	case *ssa.ChangeInterface:
+		return carriesErr(x.X, e, d+1)
+	case *ssa.Call:
+		if f := x.Call.StaticCallee(); f != nil && f.String() == "fmt.Errorf" {
+			for _, a := range variadicElems(x.Call.Args[len(x.Call.Args)-1]) {
+				if carriesErr(a, e, d+1) {
+					return true
+				}
+			}
+		}
+	}
+	return false
+}
+
+// redefCut stops a walk where the instruction that defines e is executed
+// again (the next loop iteration has a new error in the same SSA value).
+func redefCut(e ssa.Value) *Cut {
+	cut := NewCut()
+	switch x := e.(type) {
+	case *ssa.Extract:
+		if in, ok := x.Tuple.(ssa.Instruction); ok {
+			cut.AddInstr(in)
+		}
+	case ssa.Instruction:
+		cut.AddInstr(x)
+	}
+	return cut
+}
+
+// toleratesSentinel: fn tests e against the sentinel (errors.Is or ==) and on
+// the matching branch neither returns e nor panics.
+func toleratesSentinel(c *Ctx, fn *ssa.Function, e ssa.Value, sentinel string) (bool, string) {
+	isSent := func(v ssa.Value) bool {
+		if mi, ok := v.(*ssa.MakeInterface); ok {
+			v = mi.X
+		}
+		u, ok := v.(*ssa.UnOp)
+		if !ok {
+			return false
+		}
+		g, ok := u.X.(*ssa.Global)
+		if !ok {
+			return false
+		}
+		full := g.Pkg.Pkg.Path() + "." + g.Name()
+		return full == sentinel || short(g.Pkg.Pkg.Path())+"."+g.Name() == sentinel
+	}
+	var tests []ssa.Value
+	for _, b := range fn.Blocks {
+		for _, in := range b.Instrs {
+			switch x := in.(type) {
+			case *ssa.Call:
+				if f := x.Call.StaticCallee(); f != nil && f.String() == "errors.Is" && carriesErr(x.Call.Args[0], e, 0) && isSent(x.Call.Args[1]) {
+					tests = append(tests, x)
+				}
+			case *ssa.BinOp:
+				if x.Op == token.EQL && (carriesErr(x.X, e, 0) && isSent(x.Y) || carriesErr(x.Y, e, 0) && isSent(x.X)) {
+					tests = append(tests, x)
+				}
+			}
+		}
+	}
+	if len(tests) == 0 {
+		return false, "the error is not tested against " + shortSentinel2(sentinel) + " and is returned"
+	}
+	for _, t := range tests {
+		edges, ok := condEdges(t, true)
+		if !ok || len(edges) == 0 {
+			continue
+		}
+		bad := Reach(fn, nil, edges, func(in ssa.Instruction) bool {
+			switch x := in.(type) {
+			case *ssa.Return:
+				for _, r := range x.Results {
+					if carriesErr(r, e, 0) {
+						return true
+					}
+				}
+			case *ssa.Panic:
+				return carriesErr(x.X, e, 0)
+			}
+			return false
+		}, redefCut(e))
+		if bad == nil {
+			return true, "tested against " + shortSentinel2(sentinel) + " at " + c.P.InstrPos(t.(ssa.Instruction)) + "; on that branch the error is neither returned nor fatal"
+		}
+	}
+	return false, "the branch that recognises " + shortSentinel2(sentinel) + " still returns the error or panics"
+}
+
+// c07RepeatSupport: the code facts cited by the reviewed C07.repeat rows of
+// pathbadger Finalize.
+func c07RepeatSupport(c *Ctx) {
+	const rule = "C07.repeat"
+	const pk = "storage/mkvs/db/pathbadger"
+	fn := c.needFn(rule, pk+".(*badgerNodeDB).Finalize")
+	if fn == nil {
+		return
+	}
+	var idxDel, pendDel []ssa.Instruction
+	for _, f := range withClosures(fn) {
+		for _, call := range callsIn(f) {
+			if calleeName(call) != bWB+".Delete" {
+				continue
+			}
+			fm := map[string]bool{}
+			badgerKeyFormatsOf(allArgs(call)[1], 0, map[ssa.Value]bool{}, fm)
+			if fm[pk+".rootUpdatedNodesKeyFmt"] && f == fn {
+				idxDel = append(idxDel, call)
+			}
+			if fm[pk+".pendingNodeKeyFmt"] && f == fn {
+				pendDel = append(pendDel, call)
+			}
+		}
+	}
+	inst := "pathbadger Finalize index-before-pending"
+	if len(idxDel) == 0 || len(pendDel) == 0 {
+		c.Fail(rule, inst, c.P.Pos(fn.Pos()), "the deletion of the updated-nodes index records or of the pending nodes was not found")
+	} else {
+		var bad ssa.Instruction
+		for _, p := range pendDel {
+			if r := Reach(fn, p, nil, anyOf(idxDel), nil); r != nil {
+				bad = r
+			}
+			for _, i := range idxDel {
+				if !sameValue(allArgs(p.(ssa.CallInstruction))[0], allArgs(i.(ssa.CallInstruction))[0], 0) {
+					bad = p
+				}
+			}
+		}
+		c.Check(bad == nil, rule, inst, c.P.InstrPos(idxDel[0]), "the updated-nodes index records are queued for deletion before the pending nodes, in the same batch", "the pending nodes can be deleted before (or in a different batch than) the updated-nodes index records that drive the copy loop's look-ups: an interrupted Finalize leaves an index naming pending nodes that are gone and can never be repeated")
+	}
+	// removeRootKeys only collects roots that are not being finalized
+	inst = "pathbadger Finalize removed root nodes are the non-finalized ones"
+	n := 0
+	ok := true
+	for _, call := range callsIn(fn) {
+		if calleeName(call) != "builtin.append" {
+			continue
+		}
+		fm := map[string]bool{}
+		a := allArgs(call)
+		if len(a) < 2 {
+			continue
+		}
+		for _, el := range variadicElems(a[1]) {
+			badgerKeyFormatsOf(el, 0, map[ssa.Value]bool{}, fm)
+		}
+		if !fm[pk+".rootNodeKeyFmt"] {
+			continue
+		}
+		n++
+		held := false
+		for cond, pol := range heldConds(call) {
+			// `_, isFinalized := finalizedRoots[rootHash]` (the only map keyed by TypedHash
+			// with empty-struct values made in Finalize) … case false
+			if strings.Contains(cond, "make(map[storage/mkvs/db/api.TypedHash]struct{})[") &&
+				(strings.HasSuffix(cond, "#1 == false)") && pol || strings.HasSuffix(cond, "#1 == true)") && !pol) {
+				held = true
+			}
+		}
+		if !held {
+			ok = false
+			var cs []string
+			for cond, pol := range heldConds(call) {
+				cs = append(cs, fmt.Sprint(pol)+":"+cond)
+			}
+			sort.Strings(cs)
+			c.Fail(rule, inst, c.P.InstrPos(call), "a root node key is queued for deletion outside the branch where the root is not in finalizedRoots (held: "+strings.Join(cs, "; ")+")")
+		}
+	}
+	if ok {
+		c.Check(n > 0, rule, inst, c.P.Pos(fn.Pos()), itoa(n)+" site(s) queue a root node key for deletion, all under !finalizedRoots[rootHash]", "no site queues a root node key for deletion")
 	}
 }
